@@ -87,8 +87,26 @@ def run(R):
     c1 = R.call(h, "tan", [xi], opts=oi)
     c2 = R.call(h, "tan", [xi + ki * PHI], opts=oi)
     dom = z3.And(xi >= 0, ki >= 0, xi + ki * PHI < LIM)
-    R.verify("tan/periodic", [xi, ki], [c1, c2], dom, c1.out == c2.out, portfolio=("z3", "cvc5"),
-             note="tan(x + k*phi) == tan(x) exactly for x >= 0, k >= 0, arguments below 2^62")
+    obp = R.verify("tan/periodic", [xi, ki], [c1, c2], dom, c1.out == c2.out, portfolio=("z3", "cvc5"),
+                   note="tan(x + k*phi) == tan(x) exactly for x >= 0, k >= 0, arguments below 2^62")
+
+    def refine():
+        # models of the abstract query that the real code does not confirm: search pieces of [0, phi) one period apart with
+        # the real multipliers for a concrete counterexample, and keep the abstract obligation open
+        ps = O.pieces(0, PHI - 1, 1024)
+        R.rng.shuffle(ps)
+        out = []
+        for (l, hh) in ps[:6 if R.quick() else 48]:
+            x, ins, d = O.piece_var(l, hh, 10)
+            a1, a2 = R.call(h, "tan", [x]), R.call(h, "tan", [x + val(PHI)])
+            out.append(Ob("tan/periodic/k=1/[%d,%d]" % (l, hh), "hunt", ins, [a1, a2], d, a1.out == a2.out, portfolio=("z3",),
+                          timeout=300, note="tan(x + phi) == tan(x) with the real multipliers on one piece"))
+        again = Ob("tan/periodic#open", "verify", [xi, ki], [c1, c2], dom, c1.out == c2.out, portfolio=("z3", "cvc5"),
+                   note="the abstract periodicity query is not discharged (its models do not reproduce); pieces with the real "
+                        "multipliers were searched for a concrete counterexample")
+        return out + [again]
+    if obp is not None:
+        obp.fallback = refine
     R.witness("tan/periodic-reach", [xi, ki], [c1, c2], z3.And(dom, ki > 5, xi > 1000), c1.out != 0, portfolio=("z3", "cvc5"))
     absx = z3.If(xi < 0, -xi, xi)
     atpole = (absx % PHI) == PHI2
